@@ -51,4 +51,12 @@ PROPS = {
         "assumptions": ["router set fixed before the first offer (as within one bootstrap attempt)"],
         "level_note": "shape invariant proved for all op sequences incl. splits; trade/admission/rejection proved per offer at bucket level and at table level for offers that do not split; that split_bucket re-adds every live node is NOT proved in Lean and is decided by the tie (check_trade on the real table across splits)",
     },
+    "C09": {
+        "engines": [{"name": "table", "quick": 40, "thorough": 600, "oracle_tag": "C09",
+                     "op_filter": ["closest", "counts"]}],
+        "constants": ["MAX_BUCKET_SIZE", "MAX_BUCKETS", "INFO_HASH_LEN", "REPLY_NODES_PER_FAMILY", "REPLY_NODES_PER_FAMILY_V6"],
+        "trusted": COMMON_TRUST + ["C08_inv supplies the table invariant the C09 theorems assume; ids are 20 bytes (InfoHash type)"],
+        "assumptions": ["table satisfies TInv (proved for every reachable table in C08)", "ids are 20 bytes"],
+        "level_note": "walk, exactly-once enumeration, closer-nodes-first and the per-family reply list are proved for every table satisfying the invariant; the family filter/take(8) glue of the handler is additionally exercised by the handler engine (C05)",
+    },
 }
